@@ -399,6 +399,260 @@ public:
   }
 };
 
+// ---- further lock types, built from the primitives above (so every operation is a scheduling point) ----
+// A change to the code under test may replace a std::mutex by another standard lock type; without these
+// classes such a lock would block for real inside the baton scheduler and the harness would hang.
+class RecursiveMutex
+{
+  Mutex m_;
+  ConditionVariable cv_;
+  std::thread::id owner_{};
+  int depth_ = 0;
+
+public:
+  RecursiveMutex() {}
+  RecursiveMutex(const RecursiveMutex &)            = delete;
+  RecursiveMutex &operator=(const RecursiveMutex &) = delete;
+  void lock()
+  {
+    std::unique_lock<Mutex> lk(m_);
+    auto me = std::this_thread::get_id();
+    while (depth_ > 0 && owner_ != me) cv_.wait(lk);
+    owner_ = me;
+    ++depth_;
+  }
+  bool try_lock()
+  {
+    std::unique_lock<Mutex> lk(m_);
+    auto me = std::this_thread::get_id();
+    if (depth_ > 0 && owner_ != me) return false;
+    owner_ = me;
+    ++depth_;
+    return true;
+  }
+  template <class Rep, class Period>
+  bool try_lock_for(const std::chrono::duration<Rep, Period> &d)
+  {
+    std::unique_lock<Mutex> lk(m_);
+    auto me = std::this_thread::get_id();
+    if (!cv_.wait_for(lk, d, [&] { return depth_ == 0 || owner_ == me; })) return false;
+    owner_ = me;
+    ++depth_;
+    return true;
+  }
+  template <class Clock, class Dur>
+  bool try_lock_until(const std::chrono::time_point<Clock, Dur> &tp)
+  {
+    return try_lock_for(tp - Clock::now());
+  }
+  void unlock()
+  {
+    bool wake;
+    {
+      std::unique_lock<Mutex> lk(m_);
+      wake = (--depth_ == 0);
+    }
+    if (wake) cv_.notify_all();
+  }
+};
+
+class TimedMutex
+{
+  Mutex m_;
+  ConditionVariable cv_;
+  bool held_ = false;
+
+public:
+  TimedMutex() {}
+  TimedMutex(const TimedMutex &)            = delete;
+  TimedMutex &operator=(const TimedMutex &) = delete;
+  void lock()
+  {
+    std::unique_lock<Mutex> lk(m_);
+    while (held_) cv_.wait(lk);
+    held_ = true;
+  }
+  bool try_lock()
+  {
+    std::unique_lock<Mutex> lk(m_);
+    if (held_) return false;
+    held_ = true;
+    return true;
+  }
+  template <class Rep, class Period>
+  bool try_lock_for(const std::chrono::duration<Rep, Period> &d)
+  {
+    std::unique_lock<Mutex> lk(m_);
+    if (!cv_.wait_for(lk, d, [&] { return !held_; })) return false;
+    held_ = true;
+    return true;
+  }
+  template <class Clock, class Dur>
+  bool try_lock_until(const std::chrono::time_point<Clock, Dur> &tp)
+  {
+    return try_lock_for(tp - Clock::now());
+  }
+  void unlock()
+  {
+    {
+      std::unique_lock<Mutex> lk(m_);
+      held_ = false;
+    }
+    cv_.notify_all();
+  }
+};
+
+// reader/writer lock (std::shared_mutex / std::shared_timed_mutex); no fairness promise, like the standard
+class SharedMutex
+{
+  Mutex m_;
+  ConditionVariable cv_;
+  int readers_ = 0;
+  bool writer_ = false;
+
+public:
+  SharedMutex() {}
+  SharedMutex(const SharedMutex &)            = delete;
+  SharedMutex &operator=(const SharedMutex &) = delete;
+  void lock()
+  {
+    std::unique_lock<Mutex> lk(m_);
+    while (writer_ || readers_ > 0) cv_.wait(lk);
+    writer_ = true;
+  }
+  bool try_lock()
+  {
+    std::unique_lock<Mutex> lk(m_);
+    if (writer_ || readers_ > 0) return false;
+    writer_ = true;
+    return true;
+  }
+  template <class Rep, class Period>
+  bool try_lock_for(const std::chrono::duration<Rep, Period> &d)
+  {
+    std::unique_lock<Mutex> lk(m_);
+    if (!cv_.wait_for(lk, d, [&] { return !writer_ && readers_ == 0; })) return false;
+    writer_ = true;
+    return true;
+  }
+  template <class Clock, class Dur>
+  bool try_lock_until(const std::chrono::time_point<Clock, Dur> &tp)
+  {
+    return try_lock_for(tp - Clock::now());
+  }
+  void unlock()
+  {
+    {
+      std::unique_lock<Mutex> lk(m_);
+      writer_ = false;
+    }
+    cv_.notify_all();
+  }
+  void lock_shared()
+  {
+    std::unique_lock<Mutex> lk(m_);
+    while (writer_) cv_.wait(lk);
+    ++readers_;
+  }
+  bool try_lock_shared()
+  {
+    std::unique_lock<Mutex> lk(m_);
+    if (writer_) return false;
+    ++readers_;
+    return true;
+  }
+  template <class Rep, class Period>
+  bool try_lock_shared_for(const std::chrono::duration<Rep, Period> &d)
+  {
+    std::unique_lock<Mutex> lk(m_);
+    if (!cv_.wait_for(lk, d, [&] { return !writer_; })) return false;
+    ++readers_;
+    return true;
+  }
+  template <class Clock, class Dur>
+  bool try_lock_shared_until(const std::chrono::time_point<Clock, Dur> &tp)
+  {
+    return try_lock_shared_for(tp - Clock::now());
+  }
+  void unlock_shared()
+  {
+    bool wake;
+    {
+      std::unique_lock<Mutex> lk(m_);
+      wake = (--readers_ == 0);
+    }
+    if (wake) cv_.notify_all();
+  }
+};
+
+// std::condition_variable_any: works with every lock type above (and with user-defined BasicLockables)
+class ConditionVariableAny
+{
+  Mutex im_;
+  ConditionVariable cv_;
+
+public:
+  ConditionVariableAny() {}
+  ConditionVariableAny(const ConditionVariableAny &)            = delete;
+  ConditionVariableAny &operator=(const ConditionVariableAny &) = delete;
+  void notify_one() noexcept
+  {
+    { std::lock_guard<Mutex> g(im_); }
+    cv_.notify_one();
+  }
+  void notify_all() noexcept
+  {
+    { std::lock_guard<Mutex> g(im_); }
+    cv_.notify_all();
+  }
+  template <class L>
+  void wait(L &l)
+  {
+    std::unique_lock<Mutex> lk(im_);
+    l.unlock();
+    cv_.wait(lk);
+    lk.unlock();
+    l.lock();
+  }
+  template <class L, class Pred>
+  void wait(L &l, Pred pred)
+  {
+    while (!pred()) wait(l);
+  }
+  template <class L, class Rep, class Period>
+  std::cv_status wait_for(L &l, const std::chrono::duration<Rep, Period> &d)
+  {
+    std::unique_lock<Mutex> lk(im_);
+    l.unlock();
+    std::cv_status st = cv_.wait_for(lk, d);
+    lk.unlock();
+    l.lock();
+    return st;
+  }
+  template <class L, class Rep, class Period, class Pred>
+  bool wait_for(L &l, const std::chrono::duration<Rep, Period> &d, Pred pred)
+  {
+    int64_t dl = deadline_after(d);
+    while (!pred())
+    {
+      int64_t left = dl - now_ns();
+      if (left <= 0) return pred();
+      if (wait_for(l, std::chrono::nanoseconds(left)) == std::cv_status::timeout) return pred();
+    }
+    return true;
+  }
+  template <class L, class Clock, class Dur>
+  std::cv_status wait_until(L &l, const std::chrono::time_point<Clock, Dur> &tp)
+  {
+    return wait_for(l, tp - Clock::now());
+  }
+  template <class L, class Clock, class Dur, class Pred>
+  bool wait_until(L &l, const std::chrono::time_point<Clock, Dur> &tp, Pred pred)
+  {
+    return wait_for(l, tp - Clock::now(), pred);
+  }
+};
+
 class Thread
 {
   ThreadImpl *t_ = nullptr;
